@@ -1,23 +1,17 @@
-"""Per-property configuration for ./check (which theorem modules, which harness/driver streams)."""
-
-PROPS = {
-    "C07": {
-        "modules": ["VaxisModel.Props.C07"],
-        "drivers": ["C07"],
-        "trivial_prefix": ("id:",),
-        "rule": "asIndex: default + all 256 indexed colours, every palette colour, 23^3 boundary channel "
-                "values, random direct colours (quick) / all 2^24 direct colours (thorough); non-trivial = a "
-                "direct (RGB-flag) colour, distinct by colour value",
-        "trusted_base": ["float64 distance step modelled by exact integer score ×10^4 (DESIGN §3.5); "
-                         "compared by score of the chosen entry"],
-        "level_text": "Colour fallback: theorems asIndex_nearest / asIndex_id / asIndex_params proved for every 32-bit colour value "
-                      "over the palette regenerated from color.go (proved equal to the xterm formula palette). Other clauses of C07 "
-                      "(capability gating, width method) are being added; see level_note.",
-        "level_note": "Proved: nearest-entry for all colours (integer model). Modelled not verified: float64 rounding (validated on all 2^24 colours "
-                      "in the thorough tier by comparing scores). Model tied to source by Gen/Palette.lean (regenerated) and VerifAsIndex correspondence.",
-        "assumptions": ["IEEE-754 double rounding error ≪ 1e-4 for channel differences ≤ 255"],
-    },
-}
+"""Per-property configuration for ./check. One file checks/props/<id>.py per property, defining CFG with keys:
+  modules        Lean theorem modules of the property (every `theorem` in them is audited)
+  extractors     extractor commands (extract/cmd/<name>) whose Gen files the property depends on
+  drivers        correspondence streams: harness/cmd/<D> (Go, real code) + lean/VaxisModel/Driver/<D>.lean (model+oracle)
+  stateful       True if cases are multi-line (introduced by `#case` lines)
+  trivial_prefix model-canon prefixes that mark a case as trivial (not counted in distinct_nontrivial)
+  rule, trusted_base, assumptions, level_text, level_note, technique, design_ref, timeout
+"""
+import importlib, os, glob, sys
+sys.path.insert(0, os.path.join(os.path.dirname(os.path.abspath(__file__)), "props"))
+PROPS = {}
+for p in sorted(glob.glob(os.path.join(os.path.dirname(os.path.abspath(__file__)), "props", "C*.py"))):
+    name = os.path.basename(p)[:-3]
+    PROPS[name] = importlib.import_module(name).CFG
 
 # Properties not claimed (yet), with the reason shown in MANIFEST.not_applicable.
 NOT_CLAIMED = {}
